@@ -1,4 +1,6 @@
 import Proofs.Lemmas.Isqrt
+import Proofs.Lemmas.IsqrtFrom
+import Zrnt.Util.Prysm
 import Zrnt.Util.Merkle
 import Zrnt.Util.MathSpec
 import Proofs.Lemmas.Merkle
@@ -440,5 +442,95 @@ example : Merkle.verifyMerkleBranch (fun a b : Nat => 2 * a + 3 * b + 1) 7 [5, 5
       (.node (.node (.leaf 5) (.leaf 7)) (.node (.leaf 9) (.leaf 11)))) = .ok true := by decide
 
 end merkle
+
+/-- `floorSquareRootFrom n x` (regenerated) returns the floor square root of `n` for every `n` and **every**
+starting estimate `x`; it never panics and terminates (fuel above `x` and 2^32 suffices). -/
+theorem isqrtFrom_floor (n x : UInt64) (fuel : Nat) (hf1 : x.toNat < fuel) (hf2 : 2 ^ 32 ≤ fuel) :
+    ∃ v, FloorSquareRootFrom fuel n x = .ok v ∧
+      v.toNat * v.toNat ≤ n.toNat ∧ n.toNat < (v.toNat + 1) * (v.toNat + 1) := by
+  obtain ⟨v, h1, h2, h3⟩ := IsqrtFrom.floorFrom_correct n x fuel hf1 hf2
+  exact ⟨v, h1, h2, h3⟩
+
+theorem lookup_mem {l : List (UInt64 × UInt64)} {n v : UInt64} (h : l.lookup n = some v) : (n, v) ∈ l := by
+  induction l with
+  | nil => simp [List.lookup] at h
+  | cons p l ih =>
+    obtain ⟨a, b⟩ := p
+    simp only [List.lookup] at h
+    by_cases hn : n == a
+    · simp only [hn] at h
+      have : n = a := by simpa using hn
+      cases h; subst this; exact List.mem_cons_self
+    · simp only [hn] at h
+      exact List.mem_cons_of_mem _ (ih h)
+
+theorem table_exact : ∀ p ∈ Prysm.squareRootTable, p.2.toNat * p.2.toNat = p.1.toNat := by decide
+
+/-- `IntegerSquareRootPrysm` returns the floor square root for every 64-bit input, **whatever** the
+floating-point estimate is (table hit: exact root of a perfect square; otherwise the corrected estimate). -/
+theorem isqrtPrysm_floor (est : UInt64 → UInt64) (n : UInt64) (fuel : Nat) (hf : 2 ^ 64 ≤ fuel) :
+    ∃ v, Prysm.integerSquareRootPrysmWith est fuel n = .ok v ∧
+      v.toNat * v.toNat ≤ n.toNat ∧ n.toNat < (v.toNat + 1) * (v.toNat + 1) := by
+  unfold Prysm.integerSquareRootPrysmWith
+  cases hl : Prysm.squareRootTable.lookup n with
+  | some v =>
+    have := table_exact _ (lookup_mem hl)
+    simp only at this
+    refine ⟨v, rfl, by omega, ?_⟩
+    rw [← this]
+    have : v.toNat * v.toNat < (v.toNat + 1) * (v.toNat + 1) := Nat.mul_lt_mul_of_lt_of_lt (by omega) (by omega)
+    exact this
+  | none =>
+    have := (est n).toNat_lt
+    exact isqrtFrom_floor n (est n) fuel (by omega) (by omega)
+
+example : Prysm.integerSquareRootPrysmWith (fun _ => 67108865) 200 4503599761588224 = .ok 67108864 := by
+  decide +kernel
+
+/-- `ComputeSubnetForAttestation` (regenerated): whenever `committeesPerSlot * SLOTS_PER_EPOCH` is representable,
+an in-range committee index gets the specification's subnet (wrap-around of the intermediate product and sum is
+harmless because 64 divides 2^64) and an out-of-range one the error result; no panic. -/
+theorem subnet_spec (spec : Spec) (cps slot ci : UInt64)
+    (hlim : cps.toNat * spec.SLOTS_PER_EPOCH.toNat < 2 ^ 64) :
+    (ci.toNat < cps.toNat * spec.SLOTS_PER_EPOCH.toNat →
+      ∃ v, ComputeSubnetForAttestation spec cps slot ci = .ok v ∧
+        v.toNat = Spec.subnetForAttestation spec.SLOTS_PER_EPOCH.toNat cps.toNat slot.toNat ci.toNat) ∧
+    (cps.toNat * spec.SLOTS_PER_EPOCH.toNat ≤ ci.toNat → ComputeSubnetForAttestation spec cps slot ci = .err) := by
+  have hmul : (cps * spec.SLOTS_PER_EPOCH).toNat = cps.toNat * spec.SLOTS_PER_EPOCH.toNat := by
+    rw [UInt64.toNat_mul]; exact Nat.mod_eq_of_lt hlim
+  constructor
+  · intro hci
+    have hspe : spec.SLOTS_PER_EPOCH ≠ 0 := by
+      intro h; rw [h] at hci; simp at hci
+    have hge : ¬ (ci ≥ cps * spec.SLOTS_PER_EPOCH) := by
+      intro h
+      have := UInt64.le_iff_toNat_le.mp h
+      omega
+    have h64 : (64 : UInt64) ≠ 0 := by decide
+    refine ⟨(cps * (slot % spec.SLOTS_PER_EPOCH) + ci) % 64, ?_, ?_⟩
+    · simp [ComputeSubnetForAttestation, hge, Res.umod, hspe, h64]
+    · unfold Spec.subnetForAttestation
+      rw [UInt64.toNat_mod, UInt64.toNat_add, UInt64.toNat_mul, UInt64.toNat_mod]
+      have : (64 : UInt64).toNat = 64 := by decide
+      rw [this]
+      generalize cps.toNat * (slot.toNat % spec.SLOTS_PER_EPOCH.toNat) = p
+      omega
+  · intro hci
+    have hge : ci ≥ cps * spec.SLOTS_PER_EPOCH := by
+      apply UInt64.le_iff_toNat_le.mpr; omega
+    simp [ComputeSubnetForAttestation, hge]
+
+example : ComputeSubnetForAttestation { (default : Spec) with SLOTS_PER_EPOCH := 8 } 4 13 2 = .ok 22 := by decide
+
+/-- deneb's activation churn is the minimum of the cap and the phase0 churn -/
+theorem activationChurn_spec (spec : Spec) (c : UInt64) :
+    (GetValidatorActivationChurnLimit spec c).toNat =
+      Spec.activationChurnLimit spec.MAX_PER_EPOCH_ACTIVATION_CHURN_LIMIT.toNat c.toNat := by
+  unfold GetValidatorActivationChurnLimit Spec.activationChurnLimit
+  by_cases h : spec.MAX_PER_EPOCH_ACTIVATION_CHURN_LIMIT ≤ c
+  · have := UInt64.le_iff_toNat_le.mp h
+    simp [h]; omega
+  · have : ¬ spec.MAX_PER_EPOCH_ACTIVATION_CHURN_LIMIT.toNat ≤ c.toNat := fun h' => h (UInt64.le_iff_toNat_le.mpr h')
+    simp [h]; omega
 
 end Zrnt.Proofs.C19
